@@ -391,6 +391,12 @@ func TestC06(t *testing.T) {
 				// compact the names (unused declarations were pruned) so that every
 				// program declares m0, most declare m1, ...: names collide across programs
 				c06Compact(g.P)
+				// now and then a declaration is hidden: it takes no part in any clash
+				for _, m := range g.P.Metrics {
+					if rapid.IntRange(0, 7).Draw(rt, "hide") == 0 {
+						m.Hidden = true
+					}
+				}
 				gs = append(gs, g)
 				c.Progs = append(c.Progs, g.P)
 				c.Broken = append(c.Broken, rapid.IntRange(0, 14).Draw(rt, "broken") == 0)
@@ -415,6 +421,15 @@ func TestC06(t *testing.T) {
 				extraText = []string{"at 86400 x", "at 1000000 y", "at 31536000 z"}
 				extraLines = true
 				st.Class("with-clock-setting-and-clock-reading-pair")
+			case 4, 5:
+				// a name one program exports and another keeps hidden, with another
+				// kind: the hidden one never reaches the store, so they do not clash
+				c.Extra = []string{
+					"counter shared_word_len\n/^word (?P<w>\\w+)$/ {\n  shared_word_len += len($w)\n}\n",
+					"hidden gauge shared_word_len\ncounter seen_len\n/^word (?P<w>\\w+)$/ {\n  shared_word_len = len($w)\n  seen_len += shared_word_len\n}\n",
+				}
+				extraLines = true
+				st.Class("with-exported-and-hidden-metric-of-one-name")
 			}
 			if c.Extra == nil && rapid.IntRange(0, 3).Draw(rt, "extrapair") == 0 {
 				// a pair with several same-keyed metrics: one program marks every label
